@@ -168,6 +168,12 @@ def plan(tier, seed):
         for f in canonf:
             for ts in AWARE_TS:
                 yield ("Z",) + f + (ts,)
+        # product K: every surface form capitalised and in upper case (sentence-initial 'Übermorgen', 'NÄCHSTEN MONTAG') at one reference time
+        for f in allf:
+            for how in (str.capitalize, str.upper):
+                t2 = how(f[1])
+                if t2 != f[1] and len(t2) == len(f[1]):
+                    yield ("A", f[0], t2, f[2], f[3] + " [" + how.__name__ + "]", edge[3])
         # product C: omitted reference time (the datetime class seen by the library is substituted by a clock in a UTC+9 zone) for one form per kind x EDGE_TS
         seen = set()
         for f in canonf:
